@@ -206,6 +206,7 @@ type Explorer struct {
 	auxN      int
 	opaqueFmt int
 	mapOrderNondet bool
+	files          *smap // vndFile registry of the current path
 
 	model      Model // a model of pc[:modelLen]
 	modelLen   int
@@ -239,9 +240,9 @@ func (ex *Explorer) solverFor(pc []*Term, extra *Term) *Solver {
 		return ex.cvc5
 	}
 	if ex.z3 == nil {
-		s, err := NewSolver("z3")
+		s, err := NewSolver(bvSolver())
 		if err != nil {
-			panic(engineError{"cannot start z3: " + err.Error()})
+			panic(engineError{"cannot start " + bvSolver() + ": " + err.Error()})
 		}
 		if ex.run.Cfg.SolverLog != "" {
 			f, _ := os.Create(ex.run.Cfg.SolverLog)
@@ -421,12 +422,12 @@ func (ex *Explorer) assertCond(i *interpreter, c *Term, label string, where stri
 	res, m := s.Check(i.pc, nc, ex.run.Cfg.ProveTimeoutMs, ex.inputVars())
 	if res == Unsat && ex.run.Cfg.CrossCheck && !nc.fp {
 		if ex.z3b == nil {
-			ex.z3b, _ = NewSolver("z3-new")
+			ex.z3b, _ = NewSolver(bvCrossSolver())
 		}
 		if ex.z3b != nil {
 			r2, _ := ex.z3b.Check(i.pc, nc, ex.run.Cfg.ProveTimeoutMs, nil)
 			if r2 == Sat {
-				ex.run.engineErr(fmt.Sprintf("solver disagreement on %s/%s: z3 unsat, z3-new sat", j.Key(), label))
+				ex.run.engineErr(fmt.Sprintf("solver disagreement on %s/%s: primary unsat, cross-check sat", j.Key(), label))
 				res = Unknown
 			}
 		}
@@ -597,6 +598,14 @@ func init() {
 	}
 	vndIntrinsics["vndIteInt"] = func(fr *frame, args []value) value {
 		return fr.i.b.Ite(args[0].(*Term), args[1].(*Term), args[2].(*Term))
+	}
+	vndIntrinsics["vndFile"] = func(fr *frame, args []value) value {
+		i := fr.i
+		if i.ex.files == nil {
+			i.ex.files = i.makeMap(types.Typ[types.String])
+		}
+		i.mapInsert(i.ex.files, args[0], append([]value(nil), args[1].([]value)...))
+		return nil
 	}
 	vndIntrinsics["vndReach"] = func(fr *frame, args []value) value {
 		r := fr.i.ex.run
@@ -860,6 +869,7 @@ func (ex *Explorer) runPath(it *workItem) (forks [][]decision) {
 	ex.auxN = 0
 	ex.opaqueFmt = 0
 	ex.mapOrderNondet = false
+	ex.files = nil
 	ex.haveModel = false
 	i.pc = i.pc[:0]
 	i.prefix = it.prefix
@@ -1025,4 +1035,20 @@ func (ex *Explorer) debugPath(i *interpreter, outcome string) {
 		sb.WriteString("\n    " + s)
 	}
 	fmt.Fprintf(os.Stderr, "PATH %s outcome=%s decisions=%d pc:%s\n", ex.job.Key(), outcome, len(i.decisions), sb.String())
+}
+
+// bvSolver names the primary bit-vector solver: z3 5.1.0 ("z3-new") decides
+// the byte-level queries of this code base about ten times faster than 4.8.12.
+func bvSolver() string {
+	if s := os.Getenv("VERIF_BV_SOLVER"); s != "" {
+		return s
+	}
+	return "z3-new"
+}
+
+func bvCrossSolver() string {
+	if bvSolver() == "z3" {
+		return "z3-new"
+	}
+	return "z3"
 }
